@@ -64,6 +64,11 @@ def generate(rng, tier):
                 if op == "c1":
                     body = body + body
                 g["arc-flags"].append("DEC " + pre + start + op + body + "e1")
+    # Decode(nil, src): without a destination the stream is validated all the same (same error or success)
+    g["nil-destination"] = []
+    for k in ("styling-opcodes", "drawing-opcodes", "arc-flags"):
+        for c in g[k][::7]:
+            g["nil-destination"].append("DECNIL " + c.split(" ", 1)[1])
     n = 8000 if tier == "quick" else 300000
     for _ in range(n):
         s = G.stream(rng, True)
